@@ -167,18 +167,18 @@ CONTRACTS = {
                 "not (T_BOOL() is T_BYTES()) and not (T_INT() is T_FLOAT()) and not (T_INT() is T_STR()) and not (T_INT() is T_BYTES()) and not (T_FLOAT() is T_STR()) and not (T_FLOAT() is T_BYTES()) and not (T_STR() is T_BYTES())",
         },
         "ensures": {
-            "C09.Y1 bool / int / float / str / bytes give the Boolean / Integer / Double / String / Raw topic (checked before anything else: str and bytes are sequences too)":
+            "C09.Y1 (also C11) bool / int / float / str / bytes give the Boolean / Integer / Double / String / Raw topic (checked before anything else: str and bytes are sequences too)":
                 "implies(return_annotation is T_BOOL(), result is TOPIC_Boolean()) and implies(return_annotation is T_INT(), result is TOPIC_Integer()) and implies(return_annotation is T_FLOAT(), result is TOPIC_Double()) and "
                 "implies(return_annotation is T_STR(), result is TOPIC_String()) and implies(return_annotation is T_BYTES(), result is TOPIC_Raw())",
-            "C09.Y2 a WPILib struct type gives a StructTopic of that type":
+            "C09.Y2 (also C11) a WPILib struct type gives a StructTopic of that type":
                 "implies(not has(g_topic_types, return_annotation) and has_attr(return_annotation, 'WPIStruct'), result is not None and result.g_kind == 1 and result.g_of is return_annotation)",
-            "C09.Y3 list[T] / Sequence[T] / tuple[T, ...] / homogeneous tuple[T, T] give the array topic of a scalar T (bool/int/float/str) and a StructArrayTopic for a struct T":
+            "C09.Y3 (also C11) list[T] / Sequence[T] / tuple[T, ...] / homogeneous tuple[T, T] give the array topic of a scalar T (bool/int/float/str) and a StructArrayTopic for a struct T":
                 "implies(not has(g_topic_types, return_annotation) and not has_attr(return_annotation, 'WPIStruct') and seq_like(return_annotation), "
                 "(implies(g_args[0] is T_BOOL(), result is TOPIC_BooleanArray()) and implies(g_args[0] is T_INT(), result is TOPIC_IntegerArray()) and implies(g_args[0] is T_FLOAT(), result is TOPIC_DoubleArray()) and "
                 "implies(g_args[0] is T_STR(), result is TOPIC_StringArray()) and "
                 "implies(not has(g_array_topic_types, g_args[0]) and has_attr(g_args[0], 'WPIStruct'), result is not None and result.g_kind == 2 and result.g_of is g_args[0]) and "
                 "implies(not has(g_array_topic_types, g_args[0]) and not has_attr(g_args[0], 'WPIStruct'), result is None)))",
-            "C09.Y4 anything else (no table entry, no struct, not a sequence alias, a heterogeneous tuple) has no topic type":
+            "C09.Y4 (also C11) anything else (no table entry, no struct, not a sequence alias, a heterogeneous tuple) has no topic type":
                 "implies(not has(g_topic_types, return_annotation) and not has_attr(return_annotation, 'WPIStruct') and not seq_like(return_annotation), result is None)",
         },
     },
